@@ -132,4 +132,52 @@ func marshalOne(k *engine.Case, s *set, route int, start uint32) {
 	}
 	k.Logf("  %s ok, equal", via)
 	k.Count("marshal.roundtrip_ok", 1)
+
+	// The serialized bytes are a value of their own: changing the source bitmap after Marshal
+	// must not change what the earlier bytes decode to, and writing into the bytes must not
+	// change the source bitmap (an encoding that is a view of the live words breaks both).
+	if n > 0 && n < 1024 {
+		b2 := s.bitmap()
+		var out []byte
+		if p := try(func() { out = b2.Marshal() }); p != nil || len(out) == 0 {
+			return
+		}
+		snapshot := append([]byte(nil), out...)
+		// mutate the source: clear one member, set one non-member
+		var clr, set int16 = -1, -1
+		for i := 0; i < 1024; i++ {
+			if clr < 0 && s.has(i) {
+				clr = int16(i)
+			}
+			if set < 0 && !s.has(i) {
+				set = int16(i)
+			}
+		}
+		b2.UnsetI16(clr)
+		b2.SetI16(set)
+		k.Count("marshal.mutated_after_marshal", 1)
+		if !bytes.Equal(out, snapshot) {
+			fail(k, "marshal-aliases-bitmap", "Marshal(%s) returned bytes that changed when the source bitmap was modified afterwards (member %d cleared, %d set): the %s encoding is a view of the live bitmap", s, clr, set, enc)
+			return
+		}
+		fresh2 := bitmap1024.NewBit1024()
+		if err := fresh2.Unmarshal(out); err == nil {
+			if got2, ok := readBitmap(fresh2); ok && got2 != *s {
+				fail(k, "marshal-aliases-bitmap", "bytes marshalled from %s decode to %s after the source bitmap was modified", s, &got2)
+				return
+			}
+		}
+		// and the other way round
+		b3 := s.bitmap()
+		var out3 []byte
+		if p := try(func() { out3 = b3.Marshal() }); p == nil && len(out3) > 0 {
+			for i := range out3 {
+				out3[i] ^= 0xff
+			}
+			if got3, ok := readBitmap(b3); ok && got3 != *s {
+				fail(k, "marshal-aliases-bitmap", "writing into the bytes returned by Marshal(%s) changed the bitmap itself to %s", s, &got3)
+				return
+			}
+		}
+	}
 }
